@@ -68,11 +68,11 @@ def _key_rows(keys, v):
 
 
 def _eq(k, v):
-    return Fraction(k) == Fraction(v) if kind(v) == 'num' else k == v
+    return k == v            # same kind; Python compares an int with a float exactly (no rounding of the int)
 
 
 def _le(a, b):
-    return Fraction(a) <= Fraction(b) if kind(a) == 'num' else a <= b
+    return a <= b
 
 
 def has_exact_clause(keys, v):
@@ -81,6 +81,8 @@ def has_exact_clause(keys, v):
         return False
     if kv == 'num' and any(kind(k) == 'bool' for k in keys):
         return False
+    if (v == 0 or v == '') and any(k is None for k in keys):
+        return False             # "a blank cell equals 0 and the empty text" (C10): whether it is a key for 0 is left open
     if kv == 'text' and any(kind(k) == 'text' and k != v and k.lower() == v.lower() for k in keys):
         return False
     return True
@@ -143,15 +145,17 @@ def strict_same(got, exp, Empty):
     return codec.same(got, exp)
 
 
-def dedupe(fails, cap=25):
+def dedupe(fails, cap=25, keep_size=False):
+    """one failure per root-cause key: the smallest witness"""
     best = {}
     for f in fails:
         k = f['key']
         if k not in best or f.get('size', 0) < best[k].get('size', 0):
             best[k] = f
     out = sorted(best.values(), key=lambda f: f['key'])[:cap]
-    for f in out:
-        f.pop('size', None)
+    if not keep_size:
+        for f in out:
+            f.pop('size', None)
     return out
 
 
@@ -187,15 +191,19 @@ def _helper_fails(inst, Empty, keys, v, fn, mode):
 
 
 def _minimise(inst, Empty, keys, v, fn, mode):
+    """delta debugging on the rows of the key column"""
     keys = list(keys)
-    changed = True
-    while changed and len(keys) > 1:
-        changed = False
-        for i in range(len(keys)):
-            cand = keys[:i] + keys[i + 1:]
-            if _helper_fails(inst, Empty, cand, v, fn, mode):
-                keys, changed = cand, True
-                break
+    chunk = max(1, len(keys) // 2)
+    while chunk >= 1 and len(keys) > 1:
+        i, shrunk = 0, False
+        while i < len(keys) and len(keys) > 1:
+            cand = keys[:i] + keys[i + chunk:]
+            if cand and _helper_fails(inst, Empty, cand, v, fn, mode):
+                keys, shrunk = cand, True
+            else:
+                i += chunk
+        if not shrunk or chunk > 1:
+            chunk //= 2
     return keys
 
 
@@ -212,13 +220,16 @@ def _helper_one(which, inst, Empty, keys, v, fails, stats):
         got = lib.call_catch(th)
         if strict_same(got, exp, Empty):
             continue
-        mk = _minimise(inst, Empty, keys, v, fn, mode) if len(keys) <= 12 else list(keys)
+        if len(keys) <= 12 or stats['long_minimisations'] < 6:
+            stats['long_minimisations'] += len(keys) > 12
+            mk = _minimise(inst, Empty, keys, v, fn, mode)
+        else:
+            mk = list(keys)
         key = f'C14.{fn}.{mode}.{feature(mk, v)}'
-        got2 = [lib.call_catch(t) for f, m, t, e in _helper_tests(inst, Empty, mk, v) if (f, m) == (fn, mode)]
-        exp2 = [e for f, m, t, e in _helper_tests(inst, Empty, mk, v) if (f, m) == (fn, mode)]
+        again = [(lib.call_catch(t), e) for f, m, t, e in _helper_tests(inst, Empty, mk, v) if (f, m) == (fn, mode)]
         fails.append({'key': key, 'size': len(mk) * 10 + (which != 'runtime'),
-                      'what': f'{which}._{fn} [{mode}] lookup {v!r} in key column {short(mk)} -> {got2!r}, '
-                              f'expected {exp2!r} (partners v1.. / 100..; positions 1-based)',
+                      'what': f'{which}._{fn} [{mode}] lookup {v!r} in key column {short(mk)} -> {[g for g, _ in again]!r}, '
+                              f'expected {[e for _, e in again]!r} (partner columns v1.. / 100..; positions 1-based)',
                       'replay': {'kind': 'helper', 'which': which, 'fn': fn, 'mode': mode, 'keys': _enc_keys(mk),
                                  'v': codec.enc(v)}})
 
@@ -264,28 +275,45 @@ def _long_columns(rng, tier):
     return out
 
 
-def _check_helpers(tier, seed):
-    t0 = time.time()
-    rng = random.Random(seed)
-    fails, stats = [], {'evaluations': 0, 'nontrivial': 0}
-    maxlen = 4 if tier == 'quick' else 5
-    ncols = 0
+def _helper_chunk(arg):
+    """top-level worker: all key columns of length 1..maxlen over one alphabet whose FIRST cell is alpha[first]"""
+    ai, first, maxlen_rt, maxlen_ab = arg
+    alpha, looks = ((NUM_ALPHA, NUM_LOOK), (TXT_ALPHA, TXT_LOOK))[ai]
+    fails, stats = [], {'evaluations': 0, 'nontrivial': 0, 'long_minimisations': 0}
     for which in ('runtime', 'abstract'):
         cls = lib.get_class(which)
         inst, Empty = cls(), cls.EmptyCell
-        for alpha, looks in ((NUM_ALPHA, NUM_LOOK), (TXT_ALPHA, TXT_LOOK)):
-            for n in range(1, maxlen + 1):
-                for keys in itertools.product(alpha, repeat=n):
-                    ncols += 1
-                    for v in looks:
-                        _helper_one(which, inst, Empty, keys, v, fails, stats)
-        for keys, looks in _long_columns(random.Random(seed + 1), tier):
+        for n in range(0, maxlen_rt if which == 'runtime' else maxlen_ab):
+            for rest in itertools.product(alpha, repeat=n):
+                keys = (alpha[first],) + rest
+                for v in looks:
+                    _helper_one(which, inst, Empty, keys, v, fails, stats)
+    return stats, dedupe(fails, cap=200, keep_size=True)
+
+
+def _check_helpers(tier, seed):
+    t0 = time.time()
+    rng = random.Random(seed)
+    fails, stats = [], {'evaluations': 0, 'nontrivial': 0, 'long_minimisations': 0}
+    maxlen, maxlen_ab = (4, 3) if tier == 'quick' else (5, 5)
+    args = [(ai, first, maxlen, maxlen_ab) for ai in (0, 1) for first in range(len(NUM_ALPHA))]
+    with multiprocessing.Pool(min(NPROC, len(args))) as pool:
+        for st, fl in pool.map(_helper_chunk, args, chunksize=1):
+            stats['evaluations'] += st['evaluations']
+            stats['nontrivial'] += st['nontrivial']
+            fails += fl
+    long_cols = _long_columns(random.Random(seed + 1), tier)
+    for which in ('runtime', 'abstract'):
+        cls = lib.get_class(which)
+        inst, Empty = cls(), cls.EmptyCell
+        for keys, looks in long_cols:
             for v in looks:
                 _helper_one(which, inst, Empty, keys, v, fails, stats)
         # binary-search modes of XMATCH: strictly monotonic keys of one kind, exact matching -> the unique row
         uni = [1, 2, 2.5, 3, 4, 7, 11]
         sets = [c for n in range(1, 7) for c in itertools.combinations(uni, n)]
-        sets += [tuple(sorted(rng.sample(range(-3000, 3000), n))) for n in (100, 101, 1000, 1001, 1025)]
+        rb = random.Random(seed + 5)
+        sets += [tuple(sorted(rb.sample(range(-3000, 3000), n))) for n in (100, 101, 1000, 1001, 1025)]
         sets += [('a', 'b', 'bb', 'c'), ('b',), ('a', 'c')]
         for ks in sets:
             if kind(ks[0]) == 'num':
@@ -309,7 +337,7 @@ def _check_helpers(tier, seed):
                                       'replay': {'kind': 'binary', 'which': which, 'mode': mode, 'v': codec.enc(v),
                                                  'keys': _enc_keys([a[0] for a in arr])}})
     return {'name': 'C14.monitor.helper_search',
-            'bound': f'_vlookup/_match/_xmatch of both runtime copies: EVERY key column of length 1..{maxlen} over '
+            'bound': f'_vlookup/_match/_xmatch: EVERY key column of length 1..{maxlen} (emitted runtime; 1..{maxlen_ab} importable base class) over '
                      f'{len(NUM_ALPHA)} cell values (blank, 1, 2, 3, 2.0, 2.5, text header, date) x {len(NUM_LOOK)} numeric '
                      f'lookup values (present/between/below/above, int and float forms) and over {len(TXT_ALPHA)} cell '
                      f'values (blank, a, b, bb, c, B, 5, TRUE) x {len(TXT_LOOK)} text lookup values; seeded long columns '
@@ -422,7 +450,7 @@ class Table:
         return self.cols[j - 1][i]
 
 
-def lookup_formulas(tb, v, vtext, scen, qual='', rich=True, keys=None):
+def lookup_formulas(tb, v, vtext, scen, qual='', rich=True, keys=None, alljs=True):
     """-> [(formula, expected, key, size)] for lookup value v (written as vtext) against table tb.
     keys = effective key column (after overrides), default the planted one."""
     keys = tb.keys if keys is None else keys
@@ -441,7 +469,7 @@ def lookup_formulas(tb, v, vtext, scen, qual='', rich=True, keys=None):
     if has_exact_clause(keys, v):
         e, el = exact_row(keys, v), exact_row(keys, v, last=True)
         pos, posl = (NA if e is None else e + 1), (NA if el is None else el + 1)
-        js = range(1, w + 1) if rich else [w]
+        js = range(1, w + 1) if (rich and alljs) else [1, w] if rich else [w]
         for j in js:
             out.append((f'=VLOOKUP({vtext},{T},{j},FALSE)', val(e, j), k('vlookup', 'exact'), size))
         out.append((f'=VLOOKUP({vtext},{Ta},{min(2, w)},0)', val(e, min(2, w)), k('vlookup', 'exact'), size))
@@ -506,12 +534,11 @@ def lookups_for(keys):
     ks_txt = sorted({k for k in keys if kind(k) == 'text'})
     out = []
     if ks_num and len(ks_num) >= len(ks_txt):
-        for k in ks_num:
+        for i, k in enumerate(ks_num):
             out.append(k)
-            if isinstance(k, int):
+            if isinstance(k, int) and (i < 2 or i == len(ks_num) - 1):
                 out.append(float(k))                     # float lookup value against an int key
-            elif k == int(k):
-                out.append(int(k))
+        out += [int(k) + 1 for k in ks_num if isinstance(k, float)][:2]     # int lookup value between float keys
         out += [ks_num[0] - 1, ks_num[-1] + 1, ks_num[-1] + 0.5, ks_num[0] - 0.25]
         for a, b in zip(ks_num, ks_num[1:]):
             out.append((a + b) / 2)
@@ -530,8 +557,12 @@ def lookups_for(keys):
     return uniq
 
 
-def _place(formulas, title, c, r0, note):
-    return [(title, c, r0 + i, f, exp, key, size, note) for i, (f, exp, key, size) in enumerate(formulas)]
+def _place(formulas, title, c, r0, note, rows=None):
+    """formulas go down column c from row r0; with rows=k they fill a k-row band leftwards-to-rightwards from c
+    (keeps the used range small when the table sits in the last columns)"""
+    if rows is None:
+        return [(title, c, r0 + i, f, exp, key, size, note) for i, (f, exp, key, size) in enumerate(formulas)]
+    return [(title, c + i // rows, r0 + i % rows, f, exp, key, size, note) for i, (f, exp, key, size) in enumerate(formulas)]
 
 
 def _table_jobs(tier, seed):
@@ -541,8 +572,8 @@ def _table_jobs(tier, seed):
     for name, keys in SMALL_COLUMNS:
         tb = Table('S', 1, 1, keys, width=4, tag='p')
         fs = []
-        for v in lookups_for(keys):
-            fs += lookup_formulas(tb, v, lit(v), 'base')
+        for vi, v in enumerate(lookups_for(keys)):
+            fs += lookup_formulas(tb, v, lit(v), 'base', alljs=(vi < 3 or tier == 'thorough'))
         jobs.append(job_from(f'base/{name}', {'S': [tb]}, _place(fs, 'S', 8, 1, f'keys {short(keys)}')))
     # S2 placements: column boundaries Z/AA, ZZ/AAA (and XFD in thorough), rows around 100, formulas left of the table
     places = [(25, 98), (701, 99)] + ([(16382, 1), (26, 1000)] if tier == 'thorough' else [])
@@ -553,7 +584,8 @@ def _table_jobs(tier, seed):
             for v in lookups_for(keys):
                 fs += lookup_formulas(tb, v, lit(v), 'placed', rich=False)
             jobs.append(job_from(f'placed@{L(c0)}{r0}/{name}', {'Data 1': [tb]},
-                                 _place(fs, 'Data 1', 1, 1, f'keys {short(keys)} at {L(c0)}{r0}')))
+                                 _place(fs, 'Data 1', 1, 1, f'keys {short(keys)} at {L(c0)}{r0}',
+                                        rows=8 if c0 > 1000 else None)))
     # S3 long tables (> 100 and > 1000 rows)
     for n, r0 in ([(150, 1), (1100, 3)] if tier == 'quick' else [(150, 1), (101, 1), (1100, 3), (1001, 1), (2500, 2)]):
         for variant in range(2):
@@ -568,9 +600,10 @@ def _table_jobs(tier, seed):
                     keys[i] = None
             nums = [k for k in keys if kind(k) == 'num']
             looks = [nums[0], nums[-1], nums[-1] + 3, nums[0] - 1, nums[min(99, len(nums) - 1)],
-                     nums[min(100, len(nums) - 1)], nums[min(101, len(nums) - 1)], nums[min(999, len(nums) - 1)],
-                     nums[min(1000, len(nums) - 1)], nums[min(1001, len(nums) - 1)], nums[len(nums) // 2] + 0.5,
-                     float(nums[-2]), nums[-1] + 0.5]
+                     nums[min(100, len(nums) - 1)], nums[min(999, len(nums) - 1)],
+                     nums[min(1000, len(nums) - 1)], nums[len(nums) // 2] + 0.5, float(nums[-2])]
+            if tier == 'thorough':
+                looks += [nums[min(101, len(nums) - 1)], nums[min(1001, len(nums) - 1)], nums[-1] + 0.5]
             tb = Table('Big', 2, r0, keys, width=3, tag='b')
             fs, seen = [], set()
             for v in looks:
@@ -586,7 +619,7 @@ def _table_jobs(tier, seed):
         t1, t2 = Table('S', 1, 1, keys, 3, 'one'), Table('T 2', 1, 1, keys2, 3, 'two')
         placed = []
         r = 1
-        for v in lookups_for(keys)[:8]:
+        for v in lookups_for(keys)[:(5 if tier == 'quick' else 10)]:
             own1 = lookup_formulas(t1, v, lit(v), 'two_sheets', rich=False)
             own2 = lookup_formulas(t2, v, lit(v), 'two_sheets', rich=False)
             d2 = {f: (exp, key, size) for f, exp, key, size in own2}
@@ -616,10 +649,9 @@ def _table_jobs(tier, seed):
             if tier == 'quick' and i % 2:
                 continue
             # the entry cell refers to the lookup through one more cell (dependency chain)
-            placed = [('S', 9, 5, f, exp, key, size, f'entry point J6 -> I5, keys {short(keys)}'),
+            placed = [('S', 9, 5, f, None, None, size, ''),
                       ('S', 10, 6, '=I5', exp, key, size, f'entry point J6 = I5 = {f}, keys {short(keys)}')]
             jobs.append(job_from(f'entry/{name}/{i}', {'S': [tb]}, placed, entry=['S', 'J', 6]))
-            jobs[-1]['rounds'][0]['reads'] = jobs[-1]['rounds'][0]['reads'][1:]
     return jobs
 
 
@@ -628,38 +660,26 @@ def _override_jobs(tier, rng):
     scen = 'override'
     for name, keys in (SMALL_COLUMNS[0], SMALL_COLUMNS[2], SMALL_COLUMNS[9], SMALL_COLUMNS[3]):
         n0 = len(keys)
-        tb = Table('S', 1, 1, keys + [None] * 5, 3, 'o')       # range extends 5 blank rows below the data
-        for j in range(1, 3):
+        tb = Table('S', 1, 1, keys + [None] * 5, 3, 'o')       # the range extends 5 blank rows below the data
+        for j in (1, 2):
             for i in range(n0, n0 + 5):
                 tb.cols[j][i] = None
-        look = ['S', 'AZ', 300]                                 # lookup value cell, blank, beyond the used range
         is_num = kind(keys[0]) == 'num'
-        state = list(tb.keys)
-
-        def reads_for(v, keys_now, note):
-            fs = lookup_formulas(tb, v, 'AZ300', scen, rich=False, keys=keys_now)
-            return fs, note
-        # formulas are fixed at translation time: take the union of formula texts over a probe value
+        # the formula texts are fixed at translation time; the lookup value is the cell AZ300 (blank, far beyond the
+        # used range); a probe with both clauses yields every formula shape
         probe = lookup_formulas(tb, keys[0], 'AZ300', scen, rich=False, keys=[keys[0]] * len(tb.keys))
-        texts = []
-        for f, _, _, _ in probe:
-            if f not in texts:
-                texts.append(f)
+        texts = list(dict.fromkeys(f for f, _, _, _ in probe))
+        pos = {f: 1 + i for i, f in enumerate(texts)}
+        job = job_from(f'override/{name}', {'S': [tb]}, [('S', 6, pos[f], f, None, None, 0, '') for f in texts])
         if is_num:
-            texts += [f'=VLOOKUP(AZ300,{tb.rng(1, 3)},3,TRUE)', f'=MATCH(AZ300,{tb.rng(1, 1)},1)',
-                      f'=VLOOKUP(AZ300,{tb.rng(1, 3)},2)', f'=MATCH(AZ300,{tb.rng(1, 1)})']
-        texts = list(dict.fromkeys(texts))
-        pos = {f: ('S', 6, 1 + i) for i, f in enumerate(texts)}
-        placed = [('S', 6, 1 + i, f, None, None, 0, '') for i, f in enumerate(texts)]
-        steps = []
-        if is_num:
-            hi = max(k for k in keys if kind(k) == 'num')
+            hi = max(keys)
             steps = [
                 ([('L', keys[1])], 'lookup cell overridden'),
-                ([('L', float(keys[1]) if isinstance(keys[1], int) else keys[1])], 'lookup cell overridden again (float form)'),
+                ([('L', float(keys[1]) if isinstance(keys[1], int) else keys[1] + 0.25)], 'lookup cell overridden again'),
                 ([('L', hi + 100)], 'lookup above every key, blank rows below the data'),
                 ([('K', n0, hi + 5), ('P', n0, 'new6'), ('L', hi + 5)], 'blank row of the range filled by override'),
                 ([('K', n0 + 1, hi + 5), ('P', n0 + 1, 'dup7'), ('L', hi + 5)], 'duplicate of the new key added below'),
+                ([('L', hi + 7.5)], 'lookup above every key incl. the overridden ones'),
                 ([('K', 1, keys[1] + 0.5), ('L', keys[1] + 0.5)], 'existing key replaced by a fraction'),
                 ([('L', keys[1])], 'old key value looked up after it was replaced'),
                 ([('K', 0, None), ('L', keys[0])], 'first key blanked by override'),
@@ -677,14 +697,14 @@ def _override_jobs(tier, rng):
                 ([('K', 0, None), ('L', keys[0])], 'first key blanked by override'),
                 ([('K', 0, 7), ('L', 'aaa')], 'first key replaced by a number; lookup below every key'),
             ]
-        rounds = []
+        state = list(tb.keys)
         cur_v = None
         for sets, note in steps:
             enc_sets = []
             for s in sets:
                 if s[0] == 'L':
                     cur_v = s[1]
-                    enc_sets.append([look[0], look[1], look[2], codec.enc(cur_v)])
+                    enc_sets.append(['S', 'AZ', 300, codec.enc(cur_v)])
                 elif s[0] == 'K':
                     state[s[1]] = s[2]
                     enc_sets.append(['S', 'A', 1 + s[1], codec.enc(s[2]) if s[2] is not None else {'$e': 1}])
@@ -693,21 +713,13 @@ def _override_jobs(tier, rng):
                     enc_sets.append(['S', 'B', 1 + s[1], codec.enc(s[2])])
             snapshot = Table('S', 1, 1, list(state), 3, 'o')
             snapshot.cols = [list(state)] + [list(c) for c in tb.cols[1:]]
-            fs = lookup_formulas(snapshot, cur_v, 'AZ300', scen, rich=False)
-            extra = []
-            if is_num and has_approx_clause(state, cur_v):
-                a = approx_row(state, cur_v)
-                extra = [(f'=VLOOKUP(AZ300,{tb.rng(1, 3)},3,TRUE)', NA if a is None else snapshot.at(a, 3)),
-                         (f'=MATCH(AZ300,{tb.rng(1, 1)},1)', NA if a is None else a + 1)]
             reads = []
-            for f, exp, key, size in fs:
+            for f, exp, key, size in lookup_formulas(snapshot, cur_v, 'AZ300', scen, rich=False):
                 if f in pos:
-                    t, c, r = pos[f]
-                    reads.append([t, L(c), r, codec.enc(exp) if exp is not None else {'$e': 1}, key,
+                    reads.append(['S', 'F', pos[f], codec.enc(exp) if exp is not None else {'$e': 1}, key,
                                   f'override/{name}: {f} with AZ300={cur_v!r}, keys now {short(state)} ({note})',
                                   len(state) + 50])
-            rounds.append({'set': enc_sets, 'reads': reads})
-        job = job_from(f'override/{name}', {'S': [tb]}, placed, rounds_extra=rounds)
+            job['rounds'].append({'set': enc_sets, 'reads': reads})
         jobs.append(job)
     return jobs
 
@@ -846,25 +858,30 @@ def _check_index(tier, seed):
         if R * C > 2:
             area[R - 1][0] = None
         cells = area_cells(area, c0, r0)
-        fc = c0 + C + 2 if c0 + C + 2 <= 16384 else c0 - 2
-        reads, row = [], 1
+        wide = c0 + C + 2 > 16384            # area in the last columns: keep the used range low, formulas in a 3-row band
+
+        def spot(i):
+            return (c0 - 2 - i // 3, 1 + i % 3) if wide else (c0 + C + 2, 1 + i)
+        reads, i = [], 0
         for r in range(1, R + 3):
             for c in range(1, C + 3):
                 exp = _index_expected(area, r, c)
                 f = f'=INDEX({ref(c0, r0, R, C)},{r},{c})'
+                fc, row = spot(i)
+                i += 1
                 cells.append([fc, row, f])
                 reads.append(['I', L(fc), row, codec.enc(exp) if exp is not None else {'$e': 1},
                               f'C14.pipe.index.{"outside" if exp == REF else "inside"}',
                               f'{f} on a {R}x{C} area at {L(c0)}{r0}', R * C])
-                row += 1
         if R == 1 or C == 1:
-            for i in range(1, max(R, C) + 1):
-                exp = _index_expected(area, i if C == 1 else 1, 1 if C == 1 else i)
-                f = f'=INDEX({ref(c0, r0, R, C)},{i})'
+            for k in range(1, max(R, C) + 1):
+                exp = _index_expected(area, k if C == 1 else 1, 1 if C == 1 else k)
+                f = f'=INDEX({ref(c0, r0, R, C)},{k})'
+                fc, row = spot(i)
+                i += 1
                 cells.append([fc, row, f])
                 reads.append(['I', L(fc), row, codec.enc(exp) if exp is not None else {'$e': 1},
                               'C14.pipe.index.vector_two_args', f'{f} on a {R}x{C} vector at {L(c0)}{r0}', R * C])
-                row += 1
         jobs.append({'name': f'index_lit{si}', 'sheets': [{'title': 'I', 'cells': cells}], 'entry': None,
                      'rounds': [{'set': [], 'reads': reads}]})
     # (b) large areas: r, c supplied by overrides of two cells -> ALL pairs; plus literal edge formulas
@@ -898,7 +915,7 @@ def _check_index(tier, seed):
     # (c) INDEX o MATCH: partner of every key; two-dimensional form; other sheet; several areas
     keys = [30, 10, 40, 10, 2.5, 20, 'k', 'K2']
     tb = Table('S', 2, 3, keys, 4, 'm')
-    cells, reads, row = tb.cells(), [], 1
+    cells, reads, row, other = tb.cells(), [], 1, []
     for k in keys + [10.0, 40.0]:
         e = exact_row(keys, k)
         for j in (2, 3, 4):
@@ -915,10 +932,10 @@ def _check_index(tier, seed):
                       f'{f}, keys {keys}', len(keys)])
         row += 1
         f = f"=INDEX(S!{tb.rng(2, 2)},MATCH({lit(k)},S!{tb.rng(1, 1)},0))"
+        other.append([1, row, f])
         reads.append(['Other', 'A', row, codec.enc(tb.at(e, 2)), 'C14.pipe.index_match.other_sheet', f'Other!A{row} {f}, keys {keys}',
                       len(keys)])
         row += 1
-    other = [[1, r[2], r[5].split(' ', 1)[1].split(', keys')[0]] for r in reads if r[0] == 'Other']
     # several areas: INDEX((a1,a2),r,c,k)
     a1, a2 = _area(2, 2, 900), _area(3, 2, 950)
     cells += area_cells(a1, 12, 1) + area_cells(a2, 13, 4)
@@ -957,7 +974,7 @@ def _check_index(tier, seed):
 # ------------------------------------------------------------------ ADDRESS
 ROWS = (1, 1048576)
 BOUNDARY_COLS = sorted({1, 2, 25, 26, 27, 28, 51, 52, 53, 77, 78, 79, 676, 677, 678, 701, 702, 703, 704, 727, 728, 729,
-                        1352, 1353, 1378, 1379, 1380, 1404, 1405, 16383, 16384, 18278 if False else 16382, 9999, 10000, 100, 1000, 1001})
+                        1352, 1353, 1378, 1379, 1380, 1404, 1405, 16383, 16384, 16382, 9999, 10000, 100, 1000, 1001})
 
 
 def _address_exp(r, c, t=1):
@@ -1063,28 +1080,21 @@ def _check_column(tier, seed):
     # dependencies, as entry point
     own_cols = [1, 2, 3, 25, 26, 27, 28, 52, 53, 256, 257, 702, 703, 704] + ([1379, 16383, 16384] if tier == 'thorough' else [])
     for title_set in (('S',), ('S', 'T 2')):
-        sheets = []
-        reads = []
+        sheets, reads = [], []
         for si, title in enumerate(title_set):
             cells = []
             for c in own_cols:
-                c2 = c + si if c + si <= 16384 else c
+                if si and c == 16384:
+                    continue
+                c2 = c + si                                    # second sheet: same texts, one column further right
                 for r, f, exp in ((1, '=COLUMN()', c2), (2, '=COLUMN()+0', c2), (150, '=COLUMN()', c2),
                                   (3, '=ADDRESS(3,COLUMN())', f'${L(c2)}$3'), (4, f'=COLUMN()*1000+COLUMN({L(c2)}1)', c2 * 1001)):
-                    if (r == 150 and c > 60) or (si == 1 and r == 4 and c2 != c and c2 - 1 in own_cols and False):
+                    if r == 150 and c > 60:
                         continue
                     cells.append([c2, r, f])
                     reads.append([title, L(c2), r, exp, 'C14.pipe.column.own_cell' + ('.two_sheets' if len(title_set) > 1 else ''),
                                   f'{title}!{L(c2)}{r} {f}', c2])
             sheets.append({'title': title, 'cells': cells})
-        # own_cols on sheet 2 are shifted by one, so neighbours collide; keep only the last writer per cell
-        for sh in sheets:
-            last = {}
-            for c, r, f in sh['cells']:
-                last[(c, r)] = f
-            sh['cells'] = [[c, r, f] for (c, r), f in last.items()]
-        valid = {(s['title'], L(c), r): f for s in sheets for c, r, f in s['cells']}
-        reads = [rd for rd in reads if valid.get((rd[0], rd[1], rd[2])) == rd[5].split(' ', 1)[1]]
         jobs.append({'name': f'column_own{len(title_set)}', 'sheets': sheets, 'entry': None,
                      'rounds': [{'set': [], 'reads': reads}]})
     # dependency chains: each COLUMN() belongs to the cell that contains it
